@@ -47,6 +47,16 @@ func init() {
 		// comparison such as lo.Without / lo.Contains would also compare value and timeAdded)
 		g.callSeq(c14Group, c14Pkg, "Registration.Reconcile", "registrationTaintCalls",
 			[]string{"MatchTaint", "Reject", "Filter", "Without", "Contains", "IndexOf", "Difference"})
+		// Liveness.Reconcile: per deadline, the NodePool bookkeeping, how its error is filtered, then the delete
+		g.callSeq(c14Group, c14Pkg, "Liveness.Reconcile", "livenessCallOrder",
+			[]string{"updateNodePoolRegistrationHealth", "IgnoreNotFound", "IsConflict", "deleteNodeClaimForTimeout"})
+		// updateNodePoolRegistrationHealth: calls that build a new error (and may thereby drop the API status of the
+		// NodePool read, which the callers inspect with IgnoreNotFound / IsConflict)
+		errMakers := []string{"Errorf", "New", "Append", "Combine", "Join", "Wrap", "Wrapf"}
+		g.callSeq(c14Group, c14Pkg, "Liveness.updateNodePoolRegistrationHealth", "livenessPoolHealthErrorCalls", errMakers)
+		g.callSeq(c14Group, c14Pkg, "Registration.updateNodePoolRegistrationHealth", "registrationPoolHealthErrorCalls", errMakers)
+		// Registration.syncNode: what the value of the do-not-sync-taints label is compared with
+		g.c14LabelComparisons(c14Pkg, "Registration.syncNode", "doNotSyncComparisons")
 		// taints and labels
 		g.strConst(c14Group, "pkg/apis/v1", "UnregisteredTaintKey", "unregisteredTaintKey")
 		g.c14TaintVar("pkg/apis/v1", "UnregisteredNoExecuteTaint", "unregisteredTaint")
@@ -196,6 +206,71 @@ func (g *gen) c14ConditionGates(pkgPath, fn, lean string) {
 			b.WriteString(", ")
 		}
 		fmt.Fprintf(b, "(%s, %s, %s)", leanStr(x.typ), leanStr(x.op), leanStr(x.status))
+	}
+	b.WriteString("]\n\n")
+}
+
+// c14LabelComparisons emits, for every `v, ok := x.Labels[<key>]` (init of an if statement or a plain assignment)
+// inside fn, the comparisons `v ==/!= <constant string>` made in fn: (key constant's name, operator, string).
+func (g *gen) c14LabelComparisons(pkgPath, fn, lean string) {
+	p, fd := g.findFunc(pkgPath, fn)
+	if fd == nil {
+		return
+	}
+	vars := map[string]string{} // variable holding a label value -> name of the key constant
+	ast.Inspect(fd.Body, func(n ast.Node) bool {
+		as, ok := n.(*ast.AssignStmt)
+		if !ok || len(as.Rhs) != 1 || len(as.Lhs) == 0 {
+			return true
+		}
+		ie, ok := as.Rhs[0].(*ast.IndexExpr)
+		if !ok || !strings.HasSuffix(exprString(ie.X), ".Labels") {
+			return true
+		}
+		id, ok := as.Lhs[0].(*ast.Ident)
+		if !ok || id.Name == "_" {
+			return true
+		}
+		key := exprString(ie.Index)
+		if i := strings.LastIndex(key, "."); i >= 0 {
+			key = key[i+1:]
+		}
+		vars[id.Name] = key
+		return true
+	})
+	type cmp struct{ key, op, val string }
+	var cmps []cmp
+	ast.Inspect(fd.Body, func(n ast.Node) bool {
+		be, ok := n.(*ast.BinaryExpr)
+		if !ok || (be.Op != token.EQL && be.Op != token.NEQ) {
+			return true
+		}
+		for _, sides := range [][2]ast.Expr{{be.X, be.Y}, {be.Y, be.X}} {
+			id, ok := sides[0].(*ast.Ident)
+			if !ok {
+				continue
+			}
+			key, ok := vars[id.Name]
+			if !ok {
+				continue
+			}
+			val, ok := g.constStr(p, sides[1])
+			if !ok {
+				g.errf("%s.%s: %s: a label value is compared with a non-constant", pkgPath, fn, g.pos(be.Pos()))
+				return true
+			}
+			cmps = append(cmps, cmp{key, be.Op.String(), val})
+			break
+		}
+		return true
+	})
+	b := g.out(c14Group)
+	fmt.Fprintf(b, "/-- the comparisons of a label's value with a constant inside `%s.%s` (%s): (key constant, op, value) -/\ndef %s : List (String × String × String) := [", pkgPath, fn, g.pos(fd.Pos()), lean)
+	for i, x := range cmps {
+		if i > 0 {
+			b.WriteString(", ")
+		}
+		fmt.Fprintf(b, "(%s, %s, %s)", leanStr(x.key), leanStr(x.op), leanStr(x.val))
 	}
 	b.WriteString("]\n\n")
 }
